@@ -490,6 +490,8 @@ def shouldStopOf : (s : Shape) → St s → Bool
   | .tagger _ _ c, st => shouldStopOf c st
   | .fsink _ _ _, st => st.shouldStop
   | .tfr c, (_, inner) => shouldStopOf c inner
+  -- `any(result.shouldStop for result in self._results)`: each target adapter's `shouldStop` property, i.e. its own
+  -- `_shouldStop` for a target without the attribute
   | .multi cs, (_, inner) => (shouldStopL cs inner).any id
   | .e2s _, (own, _) => own.shouldStop
 def shouldStopL : (cs : List Shape) → StL cs → List Bool
